@@ -4,6 +4,7 @@ import (
 	"fmt"
 	"go/token"
 	"go/types"
+	"io/fs"
 	"sort"
 	"strings"
 
@@ -17,13 +18,15 @@ import (
 func init() { register(&Spec{ID: "C06", Targets: []load.Target{load.Linux}, Run: runC06}) }
 
 func runC06(c *core.Ctx) {
-	c.Explain("Structural clauses of C06 decided from source: (R06.1) every strings.HasPrefix test of a name against a stored path (mount keys in mount.mountPoint, record keys in the in-memory store's listing) uses a prefix ending in \"/\" — 'a' never captures 'ab'; (R06.2) in the mount-table scan, every update of the best-so-far pair on the prefix path is guarded by a strict length comparison between the candidate and the current best, so the result does not depend on iteration order, and the exact-match path stores the candidate itself; (R06.3) every MountFS branch of the helpers (and mount.Rename per name) delegates with the file system and sub-path of ONE Mount call and translates the error with (err, name, subPath) of that same call — with the suite's only mount name == subPath, so a mix-up is invisible to the tests; (R06.4) the mount-table insertion is dominated by ValidPath, not-root, a successful open+Stat of the mount point and IsDir, and is an atomic LoadOrStore whose 'loaded' result is answered with ErrExist; (R06.5) cross-mount rename: after the destination was created, every failing return removes the destination first, and the source is removed only after the copy succeeded and the destination's Close returned nil. NOT claimed: that an operation's effect equals the direct call on the routed file system; isolation of sibling file systems; interleavings of AddMount beyond the atomic-insert shape.")
+	runFixtures(c, "drop", "valid")
+	c.Explain("Structural clauses of C06 decided from source: (R06.1) every strings.HasPrefix test of a name against a stored path (mount keys in mount.mountPoint, record keys in the in-memory store's listing) uses a prefix ending in \"/\" — 'a' never captures 'ab'; (R06.2) in the mount-table scan, every update of the best-so-far pair on the prefix path is guarded by a strict length comparison between the candidate and the current best, so the result does not depend on iteration order, and the exact-match path stores the candidate itself; (R06.3) every MountFS branch of the helpers (and mount.Rename per name) delegates with the file system and sub-path of ONE Mount call and translates the error with (err, name, subPath) of that same call — with the suite's only mount name == subPath, so a mix-up is invisible to the tests; (R06.4) the mount-table insertion is dominated by ValidPath, not-root, a successful open+Stat of the mount point — addressed through the mount point's own route, Mount(p) or Mount(path.Dir(p)) joined with path.Base(p) — and IsDir, and is an atomic LoadOrStore whose 'loaded' result is answered with ErrExist; (R06.5) cross-mount rename: after the destination was created, every failing return removes the destination first, and the source is removed only after the copy succeeded and the destination's Close returned nil; (R06.6) no call of a Mount(name) route resolution in the module passes a string that can never satisfy ValidPath (the directory half of path.Split, a concatenation ending in '/', an invalid constant): such a call always falls on the invalid-name route — the root file system — whatever is mounted. NOT claimed: that an operation's effect equals the direct call on the routed file system; isolation of sibling file systems; interleavings of AddMount beyond the atomic-insert shape.")
 	c.Assume("A1: FS contract for mounted file systems", "A2: sync.Map.LoadOrStore is atomic")
 	c.RuleDoc("R06.1", "element-boundary prefix tests")
 	c.RuleDoc("R06.2", "longest match independent of iteration order")
 	c.RuleDoc("R06.3", "delegation uses one Mount call's (FS, subPath) pair and translates with it")
 	c.RuleDoc("R06.4", "AddMount: validate, existing directory, atomic insert")
 	c.RuleDoc("R06.5", "cross-mount rename cleanup and ordering")
+	c.RuleDoc("R06.6", "route resolutions are asked about names that can be valid")
 	for _, p := range c.Progs {
 		c.SetProg(p)
 		mp := p.Method("mount", "FS", "mountPoint")
@@ -45,12 +48,14 @@ func runC06(c *core.Ctx) {
 		r06Pairs(c, p)
 		r06AddMount(c, p)
 		r06Rename(c, p)
+		r06RouteArgs(c, p)
 	}
 	c.Floor("R06.1", 2)
 	c.Floor("R06.2", 2)
 	c.Floor("R06.3", 15)
 	c.Floor("R06.4", 1)
 	c.Floor("R06.5", 2)
+	c.Floor("R06.6", 15)
 }
 
 // r06Longest: stores into the captured result cells inside the Range callback.
@@ -334,6 +339,8 @@ func r06AddMount(c *core.Ctx, p *load.Program) {
 	}
 	if !opens {
 		missing = append(missing, "mount point opened successfully")
+	} else if why := addMountOpensRoute(facts, pkey); why != "" {
+		missing = append(missing, why)
 	}
 	if !stats {
 		missing = append(missing, "Stat of the mount point succeeded")
@@ -365,6 +372,110 @@ func r06AddMount(c *core.Ctx, p *load.Program) {
 		c.OK("R06.4", key, p.Pos(ins.Pos()), "insertion dominated by validation, existing-directory checks; atomic LoadOrStore with ErrExist on conflict")
 	} else {
 		c.Bad("R06.4", key, p.Pos(ins.Pos()), fmt.Sprintf("%s: the mount table insertion is missing: %s", fname(in), strings.Join(missing, "; ")))
+	}
+}
+
+// addMountOpensRoute: the successful Open among the facts addresses the mount point through its own route:
+// Mount(p) -> (m, sub), m.Open(sub), or Mount(path.Dir(p)) -> (m, sub), m.Open(path.Join(sub, path.Base(p))).
+func addMountOpensRoute(facts []ssax.Fact, pkey ssa.Value) string {
+	for _, f := range facts {
+		x, eq, ok := ssax.NilTest(f.Cond)
+		if !ok || eq != f.Val {
+			continue
+		}
+		cl := callProducing(x)
+		if cl == nil || !cl.Call.IsInvoke() || cl.Call.Method.Name() != "Open" || len(cl.Call.Args) != 1 {
+			continue
+		}
+		rx, ok := cl.Call.Value.(*ssa.Extract)
+		if !ok || rx.Index != 0 {
+			return "the existence check opens the mount point in a file system that is not the result of a route resolution"
+		}
+		mc, ok := rx.Tuple.(*ssa.Call)
+		if !ok || len(mc.Call.Args) == 0 {
+			return "the existence check opens the mount point in a file system that is not the result of a route resolution"
+		}
+		routed := ssax.Unwrap(mc.Call.Args[len(mc.Call.Args)-1])
+		arg := cl.Call.Args[0]
+		isSub := func(v ssa.Value) bool {
+			e, ok := v.(*ssa.Extract)
+			return ok && e.Tuple == ssa.Value(mc) && e.Index == 1
+		}
+		switch {
+		case routed == pkey && isSub(arg):
+			return ""
+		case pathDirOf(routed) == pkey:
+			if jc, ok := arg.(*ssa.Call); ok && ssax.CalleeIs(jc, "path", "Join") {
+				el := variadicElems(jc.Call.Args[0])
+				if len(el) == 2 && isSub(el[0]) {
+					if bc, ok := el[1].(*ssa.Call); ok && ssax.CalleeIs(bc, "path", "Base") && bc.Call.Args[0] == pkey {
+						return ""
+					}
+				}
+			}
+		}
+		return "the existence check does not open the mount point through its own route (Mount(p) or Mount(path.Dir(p)) joined with path.Base(p)): the directory is looked for in the wrong file system when the point lies below another mount"
+	}
+	return "mount point opened successfully"
+}
+
+// shapeInvalid: v can never satisfy ValidPath — the directory half of path.Split (empty or ending in a slash),
+// a concatenation ending in "/", or an invalid constant.
+func shapeInvalid(v ssa.Value) string {
+	v = ssax.Unwrap(v)
+	switch x := v.(type) {
+	case *ssa.Extract:
+		if cl, ok := x.Tuple.(*ssa.Call); ok && x.Index == 0 && (ssax.CalleeIs(cl, "path", "Split") || ssax.CalleeIs(cl, "path/filepath", "Split")) {
+			return "the directory half of path.Split (empty or ending in '/')"
+		}
+	case *ssa.BinOp:
+		if x.Op == token.ADD {
+			if s, ok := ssax.ConstString(x.Y); ok && strings.HasSuffix(s, "/") {
+				return "a concatenation ending in '/'"
+			}
+			if s, ok := ssax.ConstString(x.X); ok && strings.HasPrefix(s, "/") {
+				return "a concatenation starting with '/'"
+			}
+		}
+	case *ssa.Const:
+		if s, ok := ssax.ConstString(x); ok && !fs.ValidPath(s) {
+			return fmt.Sprintf("the invalid constant %q", s)
+		}
+	}
+	return ""
+}
+
+// r06RouteArgs (R06.6): no route resolution is asked about a name that can never be valid — it would fall on the
+// "invalid name" route (the root file system) whatever the mounts are.
+func r06RouteArgs(c *core.Ctx, p *load.Program) {
+	fsI := stdIface(p, "io/fs", "FS")
+	for _, fn := range p.SrcFuncs() {
+		ord := ordinals{}
+		ssax.Instrs(fn, func(ins ssa.Instruction) {
+			cl, ok := ins.(*ssa.Call)
+			if !ok {
+				return
+			}
+			name := ""
+			var sig *types.Signature
+			if cl.Call.IsInvoke() {
+				name = cl.Call.Method.Name()
+				sig, _ = cl.Call.Method.Type().(*types.Signature)
+			} else if callee := ssax.StaticCallee(cl); callee != nil {
+				name = callee.Name()
+				sig = callee.Signature
+			}
+			if name != "Mount" || !isMountSig(sig, fsI) {
+				return
+			}
+			arg := cl.Call.Args[len(cl.Call.Args)-1]
+			key := fname(fn) + "|" + ord.next("route")
+			if why := shapeInvalid(arg); why != "" {
+				c.Bad("R06.6", key, p.Pos(cl.Pos()), fmt.Sprintf("%s resolves the route of %s, which can never be a valid name: the resolution always answers with the root file system and the unchanged string, whatever is mounted", fname(fn), why))
+			} else {
+				c.OK("R06.6", key, p.Pos(cl.Pos()), "route resolved for a name that can be valid")
+			}
+		})
 	}
 }
 
